@@ -108,7 +108,10 @@ func (w *world) record(o *obj) string {
 	}
 	// the signature table: crypto/ed25519 over the bytes held here, for every candidate signer
 	var valid []int
-	for _, k := range o.cands {
+	// the all-zero key is always a candidate: it is what a certificate object holds whose parse failed
+	// before the key field, and crypto/ed25519 does not reject such small-order keys (with an all-zero
+	// signature it accepts about one message in four)
+	for _, k := range append(append([][32]byte(nil), o.cands...), [32]byte{}) {
 		if ent.ok && ed25519.Verify(ed25519.PublicKey(k[:]), ent.msg, ent.sig[:]) {
 			valid = append(valid, w.pkID(k))
 		}
@@ -547,12 +550,21 @@ func (c *caseGen) scenario() {
 	}
 	realClock := m == "zero-time-expired" || (m == "valid" && r.Chance(1, 12))
 	T := int64(1200000000 + r.Intn(1000000000))
+	far := !realClock && r.Chance(1, 7)
+	if far {
+		// instants and windows far from today: around 2262-04-11 (where a count of nanoseconds since
+		// 1970 leaves int64), 2100, 2300, 2600, 9999
+		T = Pick(r, []int64{4102444800, 9223372036, 9223372037, 9223372000, 10413792000, 19880899200, 253402300799 - 20000000000}) + int64(r.Intn(1000))
+	}
 	if realClock {
 		T = 1790000000 // the check runs after this instant and well before T + farSpan
 	}
 	span := func() int64 {
 		if realClock {
 			return farSpan + int64(r.Intn(1000))
+		}
+		if far && r.Chance(1, 2) {
+			return Pick(r, []int64{1000000000, 5000000000, 10000000000, 18000000000}) // 30 .. 570 years
 		}
 		return Pick(r, spans)
 	}
